@@ -100,7 +100,7 @@ class C13(Check):
             cfg["reference"] = [v * t.choice([1e-9, 1e-10, 1e-12]) for v in cfg["reference"]]
         tol = r.choice([0.0, 0.05, 0.3, 1.0, 3.0, 50.0])
         mn = r.choice([1, 1, 1, 20, 60, 150])
-        mx = r.choice([3, 10, 40, 90, 150, 300])
+        mx = r.choice([0, 3, 10, 40, 90, 150, 300])      # (0 is a limit like any other: exceeded by the first evaluation)
         lim = {"tol": tol, "min_evaluations": mn, "max_evaluations": mx}
         ops_extra = []
         if r.random() < 0.35:
